@@ -59,6 +59,23 @@ func init() {
 				parts := strings.SplitN(v.Class, "/", 2)
 				return len(parts) == 2 && strings.Contains(parts[1], "struct") && strings.Contains(parts[0], "filter")
 			},
+			"locateRootOperand": func(v *mon.Violation) bool {
+				m, _ := v.Case.(map[string]any)
+				if m == nil || v.Entry != "jp.Expr.Locate" {
+					return false
+				}
+				path, _ := m["path"].(string)
+				i := strings.Index(path, "[?(")
+				return i >= 0 && strings.Contains(path[i:], "$")
+			},
+			"inOverOtherRepresentations": func(v *mon.Violation) bool {
+				m, _ := v.Case.(map[string]any)
+				if m == nil || !(strings.HasSuffix(v.Entry, "(collections)") || strings.HasSuffix(v.Entry, "(typed)")) {
+					return false
+				}
+				path, _ := m["path"].(string)
+				return strings.Contains(path, " in @") || strings.Contains(path, " in $")
+			},
 			"locateWalkNegStepClamp": func(v *mon.Violation) bool {
 				m, _ := v.Case.(map[string]any)
 				if m == nil || v.Entry != "jp.Expr.Locate" && v.Entry != "jp.Expr.Walk" {
